@@ -573,7 +573,8 @@ def _run_with_sources(c, csv_dir, sources, signals_factory=None, alpha_factory=N
         sess = sr.build_session(c, csv_dir, signals_factory, alpha_factory, data_sources=sources)
         sess.qts.portfolio_construction_model = sr._PcmProxy(sess.qts.portfolio_construction_model, out)
         try:
-            sess.run(results=False)
+            with sr.quiet(c):
+                sess.run(results=False)
         except Exception as e:
             out.failure = (type(e).__name__, minutes(sess.broker.current_dt))
         _m, fills = ob.take()
